@@ -204,9 +204,14 @@ HARNESSES = [
          cases=[dict(id="blk%d" % (1 << k), defines={"BLK": 1 << k},
                      tier="quick" if k in (10, 12, 16) else "thorough")
                 for k in range(0, 33)] +
-               [dict(id="blk3000_s24", defines={"BLK": 3000, "SIZEBITS": 24},
-                     tier="thorough",
-                     label="bounded(devblksize = 3000, image < 2^24)")]),
+               # gensquashfs/tar2sqfs accept ANY --devblksz >= 1024, not only
+               # powers of two (seed C03-5: `%` replaced by `& (blk - 1)`)
+               [dict(id="blk%d_s%d" % (b, sb), defines={"BLK": b, "SIZEBITS": sb},
+                     tier=t,
+                     label="bounded(devblksize = %d, image < 2^%d)" % (b, sb))
+                for b, sb, t in ((3000, 24, "quick"), (1536, 24, "quick"),
+                                 (5000, 20, "quick"), (12288, 24, "thorough"),
+                                 (1000000, 24, "thorough"), (3000, 32, "thorough"))]),
     dict(name="dir_run", file="dir_run.c", label="proved", timeout=9000,
          nochecks=["--conversion-check"], weight=20,
          cases=[dict(id="n257", defines={"DR_N": 257}, unwind=258, tier="quick",
